@@ -65,6 +65,9 @@ type entryPoint struct {
 	muts []string
 	// binary marks formats with fixed-width count/length/offset fields (enables the field mutators).
 	net bool // the call opens loopback sockets (slower; smaller budgets)
+	// fixedMuts: the listed mutators are all there is, also in the thorough tier (entry points whose every case costs the
+	// library's own time-out on a correct tree)
+	fixedMuts bool
 }
 
 var (
